@@ -15,12 +15,16 @@
     of emitter calls and node-list edits `serialize` of the Builder model = the specification's linearisation of the edited document
     ("editing the node list yields the code of the edited sequence").
 
-  Not proved (checked by correspondence / differential on every run): `serialize_groups` (a section receives exactly its projection of
-  the call sequence under section re-entry – `Spec.project` is defined for it), and the byte equality Builder vs Assembler itself,
-  which rests on the assembler (C01–C03).
+  * `serialize_replays_partial` – an edit-free sequence of unconditionally accepted calls (instructions with options / extra register /
+    comment, align, comment, raw embed) is serialised as `section 0` followed by exactly that sequence.
+
+  Not proved (checked by correspondence / differential on every run): `serialize_replays` for label / section / typed-data calls,
+  `serialize_groups` (a section receives exactly its projection of the call sequence under section re-entry – `Spec.project` is defined
+  for it), and the byte equality Builder vs Assembler itself, which rests on the assembler (C01–C03).
 -/
 import AsmjitVerif.Lemmas.C08Ops
 import AsmjitVerif.Lemmas.C08Sim
+import AsmjitVerif.Lemmas.C08Replay
 
 namespace AsmjitVerif.Props.C08
 open AsmjitVerif.Builder
@@ -139,6 +143,28 @@ def sampleActs2 : List Act :=
 example : (sampleActs2.foldl MList.apply (Builder.St.init 8).l).abs.items = (sampleActs2.foldl Doc.apply (Spec.St.init 8).d).items := by decide
 example : (sampleActs2.foldl MList.apply (Builder.St.init 8).l).abs.gap = (sampleActs2.foldl Doc.apply (Spec.St.init 8).d).gap := by decide
 example : (sampleActs2.foldl MList.apply (Builder.St.init 8).l).list = [0, 3, 5, 2] := by decide
+
+/-! ## An edit-free program replays as itself -/
+
+/- Full-strength target (not proved): for every edit-free call sequence `cs` without section switches whose calls the Builder accepts at
+   call time, `serialize (build cs) = section 0 :: cs` (and under section re-entry `project s (serialize (build cs)) = project s cs`).
+   Proved below for the class of calls the Builder accepts unconditionally (`Simple`: instruction with six operand slots, the three one-shot
+   setters, align, comment, raw embed); label / section / typed-data calls, whose acceptance depends on the state, are covered by the
+   verbatim differential of every run only. `callsOf` is written independently of the Builder: it is what an Assembler is handed. -/
+theorem serialize_replays_partial (ops : List Op) (r : Nat) (h : ∀ op ∈ ops, Simple op) :
+    serialize (run (Builder.St.init r) ops) = .section 0 :: callsOf {} ops := by
+  rw [edit_semantics]
+  have hend : AtEnd (Spec.St.init r) := ⟨by simp [Spec.St.init], by intro n hn; simp [Spec.St.init] at hn ⊢; omega⟩
+  rw [simple_run ops _ h hend]
+  simp [Spec.linearize, Spec.St.init, nodeAt, Node.toCall, oneShotOf]
+
+example : ∀ op ∈ [Op.opts 0x4001, .extra "k1", .inst 789 ["a", "b", "c", "d", "-", "-"], .align 0 16, .inst 1 ["-", "-", "-", "-", "-", "-"]],
+    Simple op := by
+  intro op hop
+  simp at hop
+  rcases hop with rfl | rfl | rfl | rfl | rfl <;> simp [Simple]
+example : callsOf {} [Op.opts 0x4001, .extra "k1", .inst 789 ["a", "b", "c", "d", "-", "-"], .align 0 16, .inst 1 ["-", "-", "-", "-", "-", "-"]] =
+    [.inst 789 0x4000 "k1" "-" ["a", "b", "c", "d", "-", "-"], .align 0 16, .inst 1 0 "-" "-" ["-", "-", "-", "-", "-", "-"]] := by decide
 
 -- an operation-level history: two sections, re-entry, an instruction with options/extra register/comment, a move, a range removal
 def sampleOps : List Op :=
